@@ -23,14 +23,19 @@ type JoinCase struct {
 
 type JoinVariant struct {
 	Kind       string
-	LDir, RDir int // declared direction of each side: 0 unknown, 1 asc, -1 desc
-	Perm       int // which shuffle of the inputs
-	Batch      int // rows per batch of the left input
+	LDir, RDir int    // declared direction of each side: 0 unknown, 1 asc, -1 desc
+	Consumer   string // prompt, hold, slow (see runOpts)
+	Perm       int    // which shuffle of the inputs
+	Batch      int    // rows per batch of the left input
 }
 
 func (v JoinVariant) String() string {
 	d := map[int]string{0: "unknown", 1: "asc", -1: "desc"}
-	return fmt.Sprintf("%s join left=%s right=%s shuffle=%d batch=%d", v.Kind, d[v.LDir], d[v.RDir], v.Perm, v.Batch)
+	cons := v.Consumer
+	if cons == "" {
+		cons = "prompt"
+	}
+	return fmt.Sprintf("%s join left=%s right=%s shuffle=%d batch=%d consumer=%s", v.Kind, d[v.LDir], d[v.RDir], v.Perm, v.Batch, cons)
 }
 
 var joinProfiles = []string{"int", "int", "intnull", "numtypes", "nulls", "missing", "str", "strint", "mixed"}
@@ -41,6 +46,11 @@ func genJoinCase(seed uint64, idx int, tier string) JoinCase {
 	nl, nr := r.Intn(6), r.Intn(6)
 	if r.Chance(1, 4) {
 		nl, nr = 5+r.Intn(20), 5+r.Intn(20)
+	}
+	if idx%30 == 5 {
+		// several hundred rows per side and thousands of output rows
+		c.Profile = "wide"
+		nl, nr = 150+r.Intn(350), 150+r.Intn(350)
 	}
 	if r.Chance(1, 12) {
 		nl = 0
@@ -87,6 +97,28 @@ func (c JoinCase) variants(seed uint64, tier string) []JoinVariant {
 			}
 		}
 	}
+	if c.Profile == "wide" {
+		// large inputs: a third of the variants, all with a holding or slow consumer
+		var few []JoinVariant
+		for i, v := range vs {
+			if i%3 == c.Idx%3 {
+				few = append(few, v)
+			}
+		}
+		vs = few
+	}
+	for i := range vs {
+		switch {
+		case c.Profile == "wide" && i%2 == 0:
+			vs[i].Consumer = "hold"
+		case c.Profile == "wide":
+			vs[i].Consumer = "slow"
+		case i%3 == 1:
+			vs[i].Consumer = "hold"
+		case i%7 == 3:
+			vs[i].Consumer = "slow"
+		}
+	}
 	return vs
 }
 
@@ -99,7 +131,7 @@ func hasNullKey(rows []Row, key string) bool {
 	return false
 }
 
-func (c JoinCase) run(v JoinVariant, seed uint64) (fed []string, query string, out []zed.Value, err error) {
+func (c JoinCase) run(v JoinVariant, seed uint64) (fed []string, query string, out []zed.Value, changed []string, err error) {
 	zctx := zed.NewContext()
 	r := NewRng(seed*41 + uint64(c.Idx)*7 + uint64(v.Perm)*104723)
 	left := append([]Row{}, c.Left...)
@@ -110,11 +142,11 @@ func (c JoinCase) run(v JoinVariant, seed uint64) (fed []string, query string, o
 	}
 	lv, err := parseRows(zctx, rowsZ(left))
 	if err != nil {
-		return nil, "", nil, fmt.Errorf("harness: %w", err)
+		return nil, "", nil, nil, fmt.Errorf("harness: %w", err)
 	}
 	rv, err := parseRows(zctx, rowsZ(right))
 	if err != nil {
-		return nil, "", nil, fmt.Errorf("harness: %w", err)
+		return nil, "", nil, nil, fmt.Errorf("harness: %w", err)
 	}
 	if v.LDir != 0 {
 		sortRows(zctx, lv, "lk", v.LDir < 0)
@@ -135,7 +167,7 @@ func (c JoinCase) run(v JoinVariant, seed uint64) (fed []string, query string, o
 		rsb.WriteString(z + "\n")
 	}
 	if err := os.WriteFile(rpath, []byte(rsb.String()), 0644); err != nil {
-		return nil, "", nil, fmt.Errorf("harness: %w", err)
+		return nil, "", nil, nil, fmt.Errorf("harness: %w", err)
 	}
 	defer os.Remove(rpath)
 	all := lv
@@ -144,7 +176,7 @@ func (c JoinCase) run(v JoinVariant, seed uint64) (fed []string, query string, o
 		cut = "lv"
 	}
 	query = fmt.Sprintf(`%s join (file %s) on lk=rk hit:=%s`, v.Kind, rpath, cut)
-	ro := runOpts{batch: v.Batch}
+	ro := runOpts{batch: v.Batch, consumer: v.Consumer, changed: &changed}
 	ro.mutate = func(seq dag.Seq) error {
 		n := 0
 		walkOps(seq, func(o dag.Op) {
@@ -160,7 +192,7 @@ func (c JoinCase) run(v JoinVariant, seed uint64) (fed []string, query string, o
 		return nil
 	}
 	out, err = runQuery(query, zctx, all, ro)
-	return fed, query, out, err
+	return fed, query, out, changed, err
 }
 
 func checkJoin(c JoinCase, seed uint64, tier string, skip map[int]bool, progress func(int, string), resp *CaseResp) error {
@@ -218,7 +250,7 @@ func checkJoin(c JoinCase, seed uint64, tier string, skip map[int]bool, progress
 			continue
 		}
 		progress(vi, v.String())
-		fed, query, out, err := c.run(v, seed)
+		fed, query, out, changed, err := c.run(v, seed)
 		resp.Evals++
 		resp.Counts["join_runs_"+v.Kind]++
 		if v.LDir != 0 || v.RDir != 0 {
@@ -246,7 +278,13 @@ func checkJoin(c JoinCase, seed uint64, tier string, skip map[int]bool, progress
 		}
 		got := canonRows(kept, nil)
 		want := expect[v.Kind]
-		if v.LDir >= 0 && v.RDir >= 0 && modelled < 4 && vi%5 == c.Idx%5 {
+		if len(changed) > 0 {
+			resp.Failures = append(resp.Failures, Failure{Kind: "oracle", Sig: "join-emitted-batch-changed:" + v.Kind,
+				Detail: fmt.Sprintf("join case %d (%s): %s (%d batches changed)", c.Idx, v.String(), changed[0], len(changed)), Replay: replay,
+				Expected: "an emitted batch keeps its content until the consumer releases it", Observed: strings.Join(changed, "; ")})
+			continue
+		}
+		if v.LDir >= 0 && v.RDir >= 0 && modelled < 4 && vi%5 == c.Idx%5 && len(left)+len(right) <= 60 {
 			if jc, ok := joinCoqCase(v.Kind, left, right, kept); ok {
 				resp.Coq["join"] = append(resp.Coq["join"], jc)
 				resp.ModelCases++
@@ -277,8 +315,8 @@ func checkJoin(c JoinCase, seed uint64, tier string, skip map[int]bool, progress
 		}
 		resp.Failures = append(resp.Failures, Failure{Kind: "oracle",
 			Sig:    fmt.Sprintf("join-differs:%s:%s:%s:%s", v.Kind, dirs, inserted, nk),
-			Detail: fmt.Sprintf("join case %d (%s): %q over %s returns %d rows, the nested-loop join returns %d", c.Idx, v.String(), query, strings.Join(fed, " "), len(got), len(want)),
-			Replay: replay, Expected: strings.Join(want, " | "), Observed: strings.Join(got, " | ")})
+			Detail: fmt.Sprintf("join case %d (%s): %q over %s returns %d rows, the nested-loop join returns %d", c.Idx, v.String(), query, clip(strings.Join(fed, " "), 3000), len(got), len(want)),
+			Replay: replay, Expected: clip(strings.Join(want, " | "), 20000), Observed: clip(strings.Join(got, " | "), 20000)})
 	}
 	if len(resp.Samples) == 0 {
 		resp.Samples = append(resp.Samples, map[string]any{"join_case": c.Idx, "left_rows": len(c.Left), "right_rows": len(c.Right), "key_profile": c.Profile, "variants": len(vars), "inner_pairs": len(expect["inner"])})
